@@ -49,7 +49,7 @@ type Opts struct {
 	HostBases     []string
 	NoVersioning  bool
 	UnimplPageErr bool
-	MetaLimit     int // 0: default
+	MetaLimit     int    // 0: default
 	Dir           string // scratch dir for disk-backed kinds; "" => created
 	BoltSync      bool   // true: real fsync (C15)
 	FixedTime     time.Time
